@@ -336,28 +336,128 @@ def oracle_policy(rep, c, ve, tcd, stats, samples):
     return nv
 
 
-def run_batch(rep, harness, cases, stats, samples):
+
+# ====================================================================== correspondence with the model
+def canon_ty(s):
+    """type S-expression (model output or texpr.ty_sx of the Rust dump) -> canonical hashable form"""
+    if isinstance(s, str) and not isinstance(s, list):
+        return str(s)
+    tag = str(s[0])
+    if tag == "bool":
+        return ("bool", str(s[1]))
+    if tag == "set":
+        return ("set", None if isinstance(s[1], str) else canon_ty(s[1][1]))
+    if tag == "entity":
+        if isinstance(s[1], str):
+            return ("entity", "any")
+        return ("entity", tuple(sorted(set(tuple(tuple(c) for c in n) for n in s[1][1]))))
+    if tag == "ext":
+        return ("ext", tuple(tuple(c) for c in s[1]))
+    if tag == "record":
+        return ("record", tuple(sorted((tuple(a[0]), canon_ty(a[1]), str(a[2])) for a in s[1])), str(s[2]))
+    return ("?", repr(s))
+
+
+def rust_env_class(e):
+    if e["result"] == "success":
+        return ("success", canon_ty(texpr.ty_sx(e["typed"]["t"])))
+    if e["result"] == "irrelevant" and not e["errors"]:
+        return ("irrelevant", None)
+    return ("fail", None)
+
+
+def model_env_class(s):
+    if isinstance(s, list) and s and s[0] == "res":
+        r = s[2]
+        if r[0] == "success":
+            return str(s[1]), ("success", canon_ty(r[1]))
+        return str(s[1]), (str(r[0]), None)
+    return None, (str(s), None)
+
+
+def correspondence(rep, driver, cases, tcds, stats, first_cmds):
+    """cases[i] typechecked by Rust in mode tcds[i][mode]; one model command per (policy, mode, request env)"""
+    mcmds, meta = [], []
+    for i, c in enumerate(cases):
+        ssx = getattr(c.sg, "_ssx", None)
+        if ssx is None:
+            ssx = c.sg._ssx = S.schema_sx(c.sg.rs)
+        for mode in ("strict", "permissive"):
+            tcd = tcds[i][mode]
+            if "envs" not in tcd:
+                continue
+            cond = texpr.texpr_sx(tcd["condition"], typed=False)
+            for e in tcd["envs"]:
+                if e["env"] == "undeclared_action":
+                    continue
+                mcmds.append([Sym("typecheck"), Sym(mode), ssx, texpr.reqenv_sx(e["env"]), cond])
+                meta.append((i, mode, e))
+    if not mcmds:
+        return
+    mres = fw.run_model(driver, mcmds)
+    if not first_cmds:
+        first_cmds.extend(list(zip(mcmds, mres))[:24])
+    for (i, mode, e), mr, mc in zip(meta, mres, mcmds):
+        c = cases[i]
+        lits, mcls = model_env_class(mr)
+        if mcls[0] == "unmodelled":
+            stats["corr_unmodelled"] += 1
+            continue
+        if lits != "true":
+            # an entity literal of an undeclared type / action / enumerated id: the implementation reports it in
+            # another pass (rbac) and the per-environment answer of the typechecker is not an error by itself
+            stats["corr_bad_literal"] += 1
+            continue
+        rcls = rust_env_class(e)
+        stats["corr_compared"] += 1
+        stats["corr_classes"][mode + "/" + rcls[0]] = stats["corr_classes"].get(mode + "/" + rcls[0], 0) + 1
+        if rcls != mcls:
+            stats["corr_mismatch"] += 1
+            if stats["corr_mismatch"] <= 5:
+                rep.violation({"property": PROP, "kind": "typechecker model and implementation disagree on a request environment",
+                               "model_function": "Typecheck.tc_env (coq/model/Typecheck.v)",
+                               "rust_entry_point": "Typechecker::typecheck_by_request_env",
+                               "mode": mode, "schema": c.sg.js, "policy": c.text, "env": e["env"],
+                               "rust": {"result": e["result"], "errors": e["errors"], "root_type": (e["typed"] or {}).get("t")},
+                               "model": repr(mr), "model_cmd": sx_dump(mc),
+                               "theorem_transfer_lost": "c03_sound_partial / c03_impossible / c03_strict_in_permissive for this policy"},
+                              no_failing_input=True)
+
+
+def sx_dump(x):
+    import sx
+    return sx.dump(x)
+
+
+def run_batch(rep, harness, cases, stats, samples, driver=None, first_cmds=None):
     cmds = []
     for c in cases:
         cmds.append({"cmd": "validate_eval", "schema": c.sg.js, "policy": c.text, "slots": slots_json(c.slots), "trace": True,
                      "cases": [{"request": cedar.request_json(q), "entities": cedar.entities_json(es)} for q, es in c.envs]})
         cmds.append({"cmd": "typecheck", "schema_json": c.sg.js, "policy": c.text, "mode": "strict"})
+        cmds.append({"cmd": "typecheck", "schema_json": c.sg.js, "policy": c.text, "mode": "permissive"})
     res = fw.run_rust(harness, cmds)
     nv = 0
     for i, c in enumerate(cases):
-        nv += oracle_policy(rep, c, res[2 * i], res[2 * i + 1], stats, samples)
+        nv += oracle_policy(rep, c, res[3 * i], res[3 * i + 1], stats, samples)
+    if driver is not None:
+        correspondence(rep, driver, cases, [{"strict": res[3 * i + 1], "permissive": res[3 * i + 2]} for i in range(len(cases))],
+                       stats, first_cmds)
     return nv, res
 
 
 def new_stats():
     return {"policies": 0, "strict_accepted": 0, "impossible": 0, "evaluations": 0, "data_rejected": 0, "verdicts": {},
             "error_kinds": {}, "outcomes": {}, "traces_paired": 0, "traces_unpaired": 0, "env_unmatched": 0,
-            "subexpr_checked": 0}
+            "subexpr_checked": 0, "corr_compared": 0, "corr_mismatch": 0, "corr_unmodelled": 0, "corr_bad_literal": 0,
+            "corr_classes": {}}
 
 
 def run(rep, tier, seed):
     ob, dis, details, failures = fw.check_props(PROP_FILE, THEOREMS) if THEOREMS else (0, 0, {}, [])
     harness = fw.build_harness()
+    driver = fw.build_model_driver()
+    first_cmds = []
     rng = random.Random(seed)
     nschemas, npol = (16, 40) if tier == "quick" else (160, 80)
     stats = new_stats()
@@ -369,7 +469,7 @@ def run(rep, tier, seed):
         cs = gen_cases(rng, sid, npol)
         batch += cs
         if len(batch) >= 160 or sid == nschemas:
-            run_batch(rep, harness, batch, stats, samples)
+            run_batch(rep, harness, batch, stats, samples, driver, first_cmds)
             for c in batch:
                 total += 1
                 if c.fault is not None or c.guarded:
@@ -377,6 +477,7 @@ def run(rep, tier, seed):
                 for f in c.features:
                     feats[f] = feats.get(f, 0) + 1
             batch = []
+    nx = fw.coq_crosscheck([x for x, _ in first_cmds], [y for _, y in first_cmds], PROP)
     for f in failures:
         rep.violation({"property": PROP, "kind": "proof obligation no longer checks", "detail": f}, no_failing_input=True)
     rep.coverage = {
@@ -397,6 +498,10 @@ def run(rep, tier, seed):
         "traces_paired_with_typed_expr": stats["traces_paired"], "traces_not_paired": stats["traces_unpaired"],
         "request_env_not_matched": stats["env_unmatched"],
         "construct_histogram": feats,
+        "correspondence_envs_compared": stats["corr_compared"], "correspondence_mismatches": stats["corr_mismatch"],
+        "correspondence_filtered_unmodelled": stats["corr_unmodelled"],
+        "correspondence_filtered_undeclared_literal": stats["corr_bad_literal"],
+        "correspondence_result_classes": stats["corr_classes"], "vm_compute_crosscheck_cases": nx,
         "samples": samples[:2] or [{"policy": cases[0].text}],
     }
     rep.assumptions = [
